@@ -13,7 +13,7 @@ PROOF_TARGETS = ["C13/Lemmas.vo"]
 PROPS = ["C13/Props.v"]
 ALLOWED_AXIOMS = []
 IMPL_TIMEOUT = 10.0
-COQ_SHARD = 200
+COQ_SHARD = 80
 
 # flip to True once the proposed KNOWN_FINDINGS entry 'stale-width-after-remove-columns'
 # (see c13.notes.md) is registered: the oracle then also checks the round trip at points
@@ -288,8 +288,7 @@ def gen_fmt(rng, fields, mods, malformed=False, allow_neg=False):
     return s, neg
 
 
-def gen_program(rng, mods, ft_min, ft_max, flavour):
-    """flavour: 'valid' (oracle-checked), 'badnames' (model only), 'malformed'"""
+def gen_fields(rng, ft_min, ft_max, flavour):
     nf = rng.choice([1, 2, 2, 3, 3, 3, 4, 5])
     pool = list(GOOD_NAMES)
     if flavour == "badnames":
@@ -305,6 +304,13 @@ def gen_program(rng, mods, ft_min, ft_max, flavour):
             a, b = rng.choice([(2, 4), (0, 3), (3, 3), (5, 2), (1, 8), (0, 0), (4, 40)])
             f["min"], f["max"] = a, b
         fields.append(f)
+    return names, fields
+
+
+def gen_program(rng, mods, ft_min, ft_max, flavour):
+    """flavour: 'valid' (oracle-checked), 'badnames' (model only), 'malformed'"""
+    names, fields = gen_fields(rng, ft_min, ft_max, flavour)
+    nf = len(names)
     nrec = rng.choice([0, 1, 2, 3, 4, 5, 6, 7, 8, 9, 11, 14])
     if rng.random() < 0.04:
         nrec = rng.choice([51, 52, 56, 70])     # beyond PPTableFormat._DFLT_LIMIT_LINES
@@ -365,6 +371,156 @@ def gen_program(rng, mods, ft_min, ft_max, flavour):
     return case
 
 
+# record sets of one session need DIFFERENT column widths: a format (object) that carries the
+# widths negotiated for one of them renders the other differently
+SHORT_STR = ["", "a", "b", "bb", "|", "é"]
+LONG_STR = ["long text here", "zzzzzzzzzzzz", "0123456789012345", "Arnold S.", "été été été", "+--------+", "Bartholomew"]
+SHORT_INT = [0, 1, 2, 3, 7]
+LONG_INT = [123456, 10 ** 9, -54321, 1234567890123]
+SHORT_ENUM = [None, 7, 10]
+LONG_ENUM = [300, 12345, 20]
+
+
+def gen_records(rng, fields, nrec, style):
+    recs = []
+    for _ in range(nrec):
+        row = []
+        for f in fields:
+            st = style if style != "mix" else rng.choice(["short", "long", "any"])
+            if f["t"] == "e":
+                row.append(rng.choice(SHORT_ENUM if st == "short" else LONG_ENUM if st == "long" else ENUM_VALUES))
+            elif st == "any":
+                row.append(rng.choice(STR_VALUES + [0, 1, 17, -5, None]))
+            elif rng.random() < 0.5:
+                row.append(rng.choice(SHORT_STR if st == "short" else LONG_STR))
+            else:
+                row.append(rng.choice(SHORT_INT if st == "short" else LONG_INT))
+        recs.append(row)
+    if recs and rng.random() < 0.5:
+        recs.sort(key=lambda r: repr(r[0]))
+    return recs
+
+
+LIMS = [[None, None], [None, 3], [2, None], [0, 0], [1, 1], [1, 2], [2, 2], [3, 0], [0, 4], [30, 20]]
+
+
+def gen_session(rng, mods, ft_min, ft_max, flavour):
+    """flavour: 'session' (oracle-checked) or 'session-malformed' (some fmt strings malformed)"""
+    malformed = flavour == "session-malformed"
+    names, fields = gen_fields(rng, ft_min, ft_max, "valid")
+    nf = len(names)
+    styles = ["short", "long", "mix"]
+    rng.shuffle(styles)
+    styles = styles[:rng.choice([2, 2, 3])]
+    if "long" not in styles:
+        styles[0] = "long"
+    sizes = {"short": [1, 2, 3, 4], "long": [2, 3, 5, 7, 9, 12], "mix": [0, 2, 6, 14]}
+    recsets = [gen_records(rng, fields, rng.choice(sizes[st]), st) for st in styles]
+
+    def a_fmt(p_none=0.2):
+        if rng.random() < p_none:
+            return None
+        return gen_fmt(rng, fields, mods, malformed and rng.random() < 0.3)[0]
+
+    def a_lim():
+        return rng.choice(LIMS) if rng.random() < 0.2 else None
+
+    def a_skip():
+        if rng.random() < 0.12:
+            return rng.sample(names, rng.choice([0, 1, 1, min(2, nf)])) + rng.sample(["zz"], rng.choice([0, 1]))
+        return None
+
+    shared = [a_fmt() for _ in range(rng.choice([0, 1, 1, 1, 2]))]
+    ops = []
+    owner = []           # record set of each table
+
+    def add_new():
+        k = rng.randrange(len(recsets))
+        ops.append(["new", k, a_fmt(0.3), a_lim(), a_skip()])
+        owner.append(k)
+
+    def add_newobj():
+        srcs = [["shared", i] for i in range(len(shared))] + [["table", j] for j in range(len(owner))]
+        if not srcs:
+            return add_new()
+        src = rng.choice(srcs)
+        ks = list(range(len(recsets)))
+        if src[0] == "table" and rng.random() < 0.8:
+            ks = [k for k in ks if k != owner[src[1]]] or ks      # mostly OTHER records than the source table's
+        k = rng.choice(ks)
+        ops.append(["newobj", k, src, a_lim(), a_skip()])
+        owner.append(k)
+
+    if shared and rng.random() < 0.7:
+        add_newobj()
+    else:
+        add_new()
+    if rng.random() < 0.6:
+        add_newobj()
+    for _ in range(rng.choice([5, 6, 7, 8, 9, 10, 12])):
+        r = rng.random()
+        if r < 0.16 and len(owner) < 4:
+            add_newobj()
+        elif r < 0.20 and len(owner) < 4:
+            add_new()
+        else:
+            j = rng.randrange(len(owner))
+            r = rng.random()
+            if r < 0.34:
+                o = ["print"]
+            elif r < 0.62:
+                o = ["check"]
+            elif r < 0.74:
+                o = ["set", gen_fmt(rng, fields, mods, malformed and rng.random() < 0.6)[0]]
+            elif r < 0.81:
+                o = ["self"]
+            elif r < 0.88:
+                o = ["remove", rng.sample(names, rng.choice([1, 1, min(2, nf)])) if rng.random() < 0.9 else ["zz"]]
+            elif r < 0.94:
+                o = ["rebuild"]
+            else:
+                o = ["set", rng.choice(["", ";", ";;", " ", "; ;"])]
+            ops.append(["op", j, o])
+    while len(owner) < 2:
+        add_newobj()
+    order = list(range(len(owner)))
+    rng.shuffle(order)
+    for j in order:
+        ops.append(["op", j, ["check"]])
+    return {"session": 1, "fields": fields, "recsets": recsets, "shared": shared, "ops": ops, "flavour": flavour}
+
+
+def _sess(fields, recsets, shared, ops, flavour="session"):
+    return {"session": 1, "fields": fields, "recsets": recsets, "shared": shared, "ops": ops, "flavour": flavour}
+
+
+def fixed_sessions(ft_min, ft_max):
+    d = lambda n: {"n": n, "t": "d", "min": ft_min, "max": ft_max}  # noqa: E731
+    f3 = [d("id"), d("name"), d("grp")]
+    short = [[1, "Al", 1], [2, "Bo", 1], [3, "Cy", 2]]
+    long_ = [[1000 + i, "name " + "x" * (i + 3), 10 * (i // 2)] for i in range(7)]
+    P, C = ["print"], ["check"]
+    return [
+        # one PPTableFormat for the result tables of two queries (the way ak/mcaller_sql.py builds its tables)
+        _sess(f3, [short, long_], ["id:2-8,name:1-20,grp!:3;3:2"],
+              [["newobj", 0, ["shared", 0], None, None], ["newobj", 1, ["shared", 0], None, None],
+               ["op", 0, C], ["op", 1, C], ["op", 0, P], ["op", 1, C], ["op", 1, P], ["op", 0, C], ["op", 1, C],
+               ["newobj", 1, ["shared", 0], None, None], ["op", 2, C]]),
+        # a table made from the live format object of a printed table over other records
+        _sess(f3, [short, long_], [None],
+              [["new", 0, "id,name,grp!", None, None], ["op", 0, P], ["newobj", 1, ["table", 0], None, None],
+               ["op", 1, C], ["op", 1, P], ["op", 0, C], ["op", 1, ["self"]], ["op", 0, C], ["op", 1, C],
+               ["newobj", 0, ["table", 1], [1, 1], ["grp"]], ["op", 2, C], ["op", 1, C], ["op", 2, P], ["op", 1, C],
+               ["op", 0, C]]),
+        # limits= / skip_columns= / remove_columns / fmt assignment on one of the siblings
+        _sess(f3, [long_, short], ["name:1-6,id,grp;1:1", "*"],
+              [["newobj", 0, ["shared", 0], None, None], ["newobj", 1, ["shared", 0], [0, 0], ["id"]], ["op", 0, C],
+               ["newobj", 0, ["shared", 1], None, ["name"]], ["op", 1, P], ["op", 0, C], ["op", 0, ["remove", ["id"]]],
+               ["op", 1, C], ["op", 2, C], ["op", 2, ["set", "grp,name:0-30;2:0"]], ["op", 2, P], ["op", 0, C],
+               ["newobj", 1, ["table", 2], None, None], ["op", 3, C], ["op", 1, C], ["op", 2, C]]),
+    ]
+
+
 def _c(fields, recs, fmt, ops, lim=None, skip=None, flavour="valid"):
     return {"fields": fields, "recs": recs, "fmt": fmt, "lim": lim, "skip": skip, "ops": ops, "flavour": flavour}
 
@@ -400,6 +556,9 @@ def fixed_cases(ft_min, ft_max):
     return out
 
 
+N_SESSIONS_QUICK = 170
+
+
 def gen_cases(rng, tier):
     mods, ft_min, ft_max = _consts_py()
     big = tier == "thorough"
@@ -409,6 +568,9 @@ def gen_cases(rng, tier):
         k = i % 10
         flavour = "valid" if k < 7 else ("malformed" if k < 9 else "badnames")
         cases.append(gen_program(rng, mods, ft_min, ft_max, flavour))
+    cases.extend(fixed_sessions(ft_min, ft_max))
+    for i in range(2400 if big else N_SESSIONS_QUICK):
+        cases.append(gen_session(rng, mods, ft_min, ft_max, "session-malformed" if i % 8 == 7 else "session"))
     return cases
 
 
@@ -417,6 +579,9 @@ def search_cases(rng, tier):
     out = fixed_cases(ft_min, ft_max)
     for _ in range(3000):
         out.append(gen_program(rng, mods, ft_min, ft_max, "valid"))
+    out.extend(fixed_sessions(ft_min, ft_max))
+    for _ in range(1500):
+        out.append(gen_session(rng, mods, ft_min, ft_max, "session"))
     return out
 
 
@@ -453,8 +618,7 @@ def _try(fn):
         return ["err", SX.exc_name(e)]
 
 
-def impl_run(case):
-    import copy
+def _impl_env(case):
     from ak import ppobj
     enum_t = ppobj.PPEnumFieldType(dict(ENUM))
     names = [f["n"] for f in case["fields"]]
@@ -464,6 +628,70 @@ def impl_run(case):
             ftypes[f["n"]] = enum_t
         elif f["t"] == "c":
             ftypes[f["n"]] = ppobj.FieldType(min_width=f["min"], max_width=f["max"])
+    return ppobj, names, ftypes
+
+
+def _printed(tab):
+    v, h = _render(tab)
+    return {"view": v, "fmt": str(tab.fmt), "h": h}
+
+
+def _then_print(mk):
+    r = _try(mk)
+    if r[0] == "err":
+        return {"err": r[1]}
+    tab = r[1]
+    d = {"fmt0": str(tab.fmt)}
+    d.update(_printed(tab))
+    return d
+
+
+def _table_op(ppobj, t, o, build, recs):
+    """one life-cycle operation on table t -> (table afterwards, observation).
+    build(fmt) = PPTable(<records of t>, fmt=fmt, <fields of t>)"""
+    import copy
+    k = o[0]
+    if k == "print":
+        return t, _printed(t)
+    if k == "set" or k == "self":
+        s = o[1] if k == "set" else str(t.fmt)
+
+        def do():
+            t.fmt = s
+            return str(t.fmt)
+        return t, _try(do)
+    if k == "remove":
+        t.remove_columns(list(o[1]))
+        return t, str(t.fmt)
+    if k == "rebuild":
+        r = _try(lambda: build(str(t.fmt)))
+        if r[0] == "ok":
+            return r[1], ["ok", str(r[1].fmt)]
+        return t, r
+    if k == "check":
+        s = str(t.fmt)
+
+        def via_setter(x):
+            def mk():
+                c = copy.deepcopy(t)
+                c.fmt = x
+                return c
+            return mk
+        d = {"s": s,
+             "A": _printed(copy.deepcopy(t)),
+             "B": _then_print(via_setter(s)),
+             "C": _then_print(lambda: build(s)),
+             "E": [_then_print(via_setter(x)) for x in ("", ";", ";;")],
+             # the reported format OBJECT handed to the constructor (of a copy: 'check' must not touch t)
+             "D": _then_print(lambda: ppobj.PPTable(recs, fmt_obj=copy.deepcopy(t).fmt))}
+        return t, d
+    raise ValueError(k)
+
+
+def impl_run(case):
+    if case.get("session"):
+        return impl_run_session(case)
+    ppobj, names, ftypes = _impl_env(case)
     recs = [tuple(r) for r in case["recs"]]
 
     def build(fmt, lim=None, skip=None):
@@ -479,58 +707,71 @@ def impl_run(case):
         return {"init": r}
     t = r[1]
     out = {"init": ["ok", str(t.fmt)], "steps": []}
-
-    def printed(tab):
-        v, h = _render(tab)
-        return {"view": v, "fmt": str(tab.fmt), "h": h}
-
-    def then_print(mk):
-        r = _try(mk)
-        if r[0] == "err":
-            return {"err": r[1]}
-        tab = r[1]
-        d = {"fmt0": str(tab.fmt)}
-        d.update(printed(tab))
-        return d
-
     for o in case["ops"]:
-        k = o[0]
-        if k == "print":
-            out["steps"].append(printed(t))
-        elif k == "set" or k == "self":
-            s = o[1] if k == "set" else str(t.fmt)
+        t, ob = _table_op(ppobj, t, o, build, recs)
+        out["steps"].append(ob)
+    return out
 
-            def do(s=s):
-                t.fmt = s
-                return str(t.fmt)
-            out["steps"].append(_try(do))
-        elif k == "remove":
-            t.remove_columns(list(o[1]))
-            out["steps"].append(str(t.fmt))
-        elif k == "rebuild":
-            r = _try(lambda: build(str(t.fmt)))
-            if r[0] == "ok":
-                t = r[1]
-                out["steps"].append(["ok", str(t.fmt)])
+
+def impl_run_session(case):
+    """several tables alive at once; tables made from fmt strings, from shared PPTableFormat objects
+    and from other tables' .fmt objects; after every operation str(.fmt) of ALL of them is recorded"""
+    ppobj, names, ftypes = _impl_env(case)
+    recsets = [[tuple(r) for r in rs] for rs in case["recsets"]]
+
+    def kwargs(lim, skip):
+        kw = {}
+        if lim is not None:
+            kw["limits"] = tuple(lim)
+        if skip is not None:
+            kw["skip_columns"] = list(skip)
+        return kw
+
+    shared, shared_obs = [], []
+    for f in case["shared"]:
+        r = _try(lambda: ppobj.PPTableFormat.make(f, list(names), dict(ftypes), None))
+        shared.append(r[1] if r[0] == "ok" else None)
+        shared_obs.append(["ok", str(r[1])] if r[0] == "ok" else r)
+    tables = []          # [table or None, index of its record set]
+    out = {"shared": shared_obs, "steps": []}
+    for m in case["ops"]:
+        k = m[0]
+        if k == "new":
+            _, rk, fmt, lim, skip = m
+            r = _try(lambda: ppobj.PPTable(recsets[rk], fmt=fmt, fields=list(names), fields_types=dict(ftypes),
+                                           **kwargs(lim, skip)))
+            tables.append([r[1] if r[0] == "ok" else None, rk])
+            ob = ["ok", str(r[1].fmt)] if r[0] == "ok" else r
+        elif k == "newobj":
+            _, rk, src, lim, skip = m
+            if src[0] == "shared":
+                fo = shared[src[1]] if src[1] < len(shared) else None
             else:
-                out["steps"].append(r)
-        elif k == "check":
-            s = str(t.fmt)
+                st = tables[src[1]][0] if src[1] < len(tables) else None
+                fo = st.fmt if st is not None else None
+            if fo is None:
+                tables.append([None, rk])
+                ob = ["absent"]
+            else:
+                r = _try(lambda: ppobj.PPTable(recsets[rk], fmt_obj=fo, **kwargs(lim, skip)))
+                tables.append([r[1] if r[0] == "ok" else None, rk])
+                ob = ["ok", str(r[1].fmt)] if r[0] == "ok" else r
+        elif k == "op":
+            _, j, o = m
+            ent = tables[j] if j < len(tables) else None
+            if ent is None or ent[0] is None:
+                ob = ["absent"]
+            else:
+                rk = ent[1]
 
-            def via_setter(x):
-                def mk():
-                    c = copy.deepcopy(t)
-                    c.fmt = x
-                    return c
-                return mk
-            d = {"s": s,
-                 "A": printed(copy.deepcopy(t)),
-                 "B": then_print(via_setter(s)),
-                 "C": then_print(lambda: build(s)),
-                 "E": [then_print(via_setter(x)) for x in ("", ";", ";;")]}
-            out["steps"].append(d)
+                def build(fmt, rk=rk):
+                    return ppobj.PPTable(recsets[rk], fmt=fmt, fields=list(names), fields_types=dict(ftypes))
+                ent[0], ob = _table_op(ppobj, ent[0], o, build, recsets[rk])
         else:
             raise ValueError(k)
+        snap = [(None if e[0] is None else str(e[0].fmt)) for e in tables] + \
+               [(None if f is None else str(f)) for f in shared]
+        out["steps"].append({"ob": ob, "snap": snap})
     return out
 
 
@@ -559,16 +800,17 @@ def _mods_of(case):
     return _consts_py()[0]
 
 
-def coq_case(case, obs):
-    mods = _mods_of(case)
+def _coq_fields(case):
     fields = []
     for f in case["fields"]:
         m = "enum_mods" if f["t"] == "e" else "[]"
         fields.append(f"mkField {SX.cstr(f['n'])} {m} {SX.cZ(f['min'])} {SX.cZ(f['max'])} {SX.cZ(_title_w(f['n']))}")
-    ncol = len(case["fields"])
-    ids = [dict() for _ in range(ncol)]
+    return SX.clist(fields)
+
+
+def _coq_rows(case, recs, ids, mods):
     rows = []
-    for r in case["recs"]:
+    for r in recs:
         cells = []
         for j, v in enumerate(r):
             key = (type(v).__name__, v)
@@ -577,27 +819,50 @@ def coq_case(case, obs):
             lens = _enum_lens(v, mods) if f["t"] == "e" else [len(str(v))]
             cells.append(f"mkCell {vid} {SX.cZlist(lens)}")
         rows.append(SX.clist(cells))
-    ops = []
-    for o in case["ops"]:
-        k = o[0]
-        if k == "print":
-            ops.append("OPrint")
-        elif k == "set":
-            ops.append(f"OSet {SX.cstr(o[1])}")
-        elif k == "self":
-            ops.append("OSelf")
-        elif k == "remove":
-            ops.append(f"ORemove {SX.clist(SX.cstr(n) for n in o[1])}")
-        elif k == "rebuild":
-            ops.append("ORebuild")
-        else:
-            ops.append("OCheck")
+    return SX.clist(rows)
 
-    def lim(l):
-        return "(" + SX.copt(l[0], SX.cZ) + ", " + SX.copt(l[1], SX.cZ) + ")"
-    return ("mkCase " + SX.clist(fields) + " " + SX.clist(rows) + " " + SX.copt(case["fmt"], SX.cstr) + " "
-            + SX.copt(case["lim"], lim) + " "
-            + SX.copt(case["skip"], lambda s: SX.clist(SX.cstr(n) for n in s)) + " " + SX.clist(ops))
+
+def _coq_op(o):
+    k = o[0]
+    if k == "print":
+        return "OPrint"
+    if k == "set":
+        return f"OSet {SX.cstr(o[1])}"
+    if k == "self":
+        return "OSelf"
+    if k == "remove":
+        return f"ORemove {SX.clist(SX.cstr(n) for n in o[1])}"
+    if k == "rebuild":
+        return "ORebuild"
+    return "OCheck"
+
+
+def _coq_lim(l):
+    return "(" + SX.copt(l[0], SX.cZ) + ", " + SX.copt(l[1], SX.cZ) + ")"
+
+
+def _coq_skip(s):
+    return SX.clist(SX.cstr(n) for n in s)
+
+
+def coq_case(case, obs):
+    mods = _mods_of(case)
+    ids = [dict() for _ in case["fields"]]
+    if case.get("session"):
+        ops = []
+        for m in case["ops"]:
+            if m[0] == "new":
+                ops.append(f"MNew {m[1]} {SX.copt(m[2], SX.cstr)} {SX.copt(m[3], _coq_lim)} {SX.copt(m[4], _coq_skip)}")
+            elif m[0] == "newobj":
+                src = f"(SShared {m[2][1]})" if m[2][0] == "shared" else f"(STable {m[2][1]})"
+                ops.append(f"MNewObj {m[1]} {src} {SX.copt(m[3], _coq_lim)} {SX.copt(m[4], _coq_skip)}")
+            else:
+                ops.append(f"MOp {m[1]} ({_coq_op(m[2])})")
+        return ("Session " + _coq_fields(case) + " " + SX.clist(_coq_rows(case, rs, ids, mods) for rs in case["recsets"])
+                + " " + SX.clist(SX.copt(f, SX.cstr) for f in case["shared"]) + " " + SX.clist(ops))
+    return ("Single (mkCase " + _coq_fields(case) + " " + _coq_rows(case, case["recs"], ids, mods) + " "
+            + SX.copt(case["fmt"], SX.cstr) + " " + SX.copt(case["lim"], _coq_lim) + " "
+            + SX.copt(case["skip"], _coq_skip) + " " + SX.clist(_coq_op(o) for o in case["ops"]) + ")")
 
 
 def _sx_res_str(r):
@@ -631,21 +896,42 @@ def hash_sx(x):
     return acc
 
 
+def _sx_op(o, st):
+    """nested-list form of the observation of one table operation (Run.step)"""
+    k = o[0]
+    if k == "print":
+        return _sx_printed(st)
+    if k in ("set", "self", "rebuild"):
+        return _sx_res_str(st)
+    if k == "remove":
+        return SX.s(st)
+    return [_sx_printed(st["A"]), _sx_then(st["B"]), _sx_then(st["C"])] + [_sx_then(x) for x in st["E"]] + [_sx_then(st["D"])]
+
+
+ABSENT = [2]
+
+
+def _sx_opt_str(x):
+    return ABSENT if x is None else [0, SX.s(x)]
+
+
 def expected_full(case, obs):
     """nested-list form of the complete observation (what Run.run_full computes)"""
+    if case.get("session"):
+        steps = []
+        for m, st in zip(case["ops"], obs["steps"]):
+            ob = st["ob"]
+            if ob == ["absent"]:
+                x = ABSENT
+            elif m[0] in ("new", "newobj"):
+                x = _sx_res_str(ob)
+            else:
+                x = _sx_op(m[2], ob)
+            steps.append([x, [_sx_opt_str(f) for f in st["snap"]]])
+        return [0, [_sx_res_str(r) for r in obs["shared"]], steps]
     if obs["init"][0] == "err":
         return SX.err(obs["init"][1])
-    steps = []
-    for o, st in zip(case["ops"], obs["steps"]):
-        k = o[0]
-        if k == "print":
-            steps.append(_sx_printed(st))
-        elif k in ("set", "self", "rebuild"):
-            steps.append(_sx_res_str(st))
-        elif k == "remove":
-            steps.append(SX.s(st))
-        else:
-            steps.append([_sx_printed(st["A"]), _sx_then(st["B"]), _sx_then(st["C"])] + [_sx_then(x) for x in st["E"]])
+    steps = [_sx_op(o, st) for o, st in zip(case["ops"], obs["steps"])]
     return [0, SX.s(obs["init"][1]), steps]
 
 
@@ -656,51 +942,64 @@ def expected_sx(case, obs):
     return SX.dumps([0, hash_sx(full[1]), [hash_sx(x) for x in full[2]]])
 
 
+def _all_fmt_texts(case):
+    if case.get("session"):
+        texts = [f or "" for f in case["shared"]]
+        for m in case["ops"]:
+            if m[0] == "new":
+                texts.append(m[2] or "")
+            elif m[0] == "op" and m[2][0] == "set":
+                texts.append(m[2][1])
+        return texts
+    return [case["fmt"] or ""] + [o[1] for o in case["ops"] if o[0] == "set"]
+
+
 def in_model(case, obs):
     # decimal digits other than 0-9 are accepted by int() but are outside the model
-    texts = [case["fmt"] or ""] + [o[1] for o in case["ops"] if o[0] == "set"]
+    texts = _all_fmt_texts(case)
     return not any(c.isdigit() and not ("0" <= c <= "9") for t in texts for c in t)
 
 
 # ------------------------------------------------------------------ oracle (the statement, independently)
-def oracle(case, obs):
-    if "__hang__" in obs:
-        return [("hang", "the life-cycle program did not return")]
-    if case.get("flavour", "valid") == "badnames" or not all(name_in_charset(f["n"]) for f in case["fields"]):
-        return []      # names outside the stated character set: nothing is demanded
-    if obs["init"][0] == "err":
-        return []
-    out = []
-    neg = bool(case.get("neglim")) or any(isinstance(x, int) and x < 0 for x in (case["lim"] or []))
-    printed = False      # widths negotiated since the last (re)format
-    stale = False
-    prev_fmt = obs["init"][1]
-    hist = []
-    for o, st in zip(case["ops"], obs["steps"]):
+class _Judge:
+    """the statement, checked on the observations of ONE table along its life"""
+
+    def __init__(self, fmt0, neg, what):
+        self.neg = neg
+        self.printed = False      # widths negotiated since the last (re)format
+        self.stale = False
+        self.prev_fmt = fmt0
+        self.hist = []
+        self.what = what
+        self.out = []
+
+    def note(self, text):
+        self.hist.append(text)
+
+    def feed(self, o, st):
+        out = self.out
         k = o[0]
-        hist.append(k if k != "set" else f"set {o[1]!r}")
-        where = f"after [{', '.join(hist)}] on fmt={case['fmt']!r} fields={[f['n'] for f in case['fields']]}"
+        self.hist.append(k if k != "set" else f"set {o[1]!r}")
+        where = f"after [{', '.join(self.hist)}] {self.what() if callable(self.what) else self.what}"
         if k == "print":
-            printed = True
-            prev_fmt = st["fmt"]
+            self.printed = True
+            self.prev_fmt = st["fmt"]
         elif k == "set":
             if st[0] == "ok":
-                printed = stale = False
-                prev_fmt = st[1]
+                self.printed = self.stale = False
+                self.prev_fmt = st[1]
         elif k in ("self", "rebuild"):
             if st[0] != "ok":
                 out.append(("fmt-str-not-accepted",
-                            f"str(t.fmt) = {prev_fmt!r} rejected by the {'setter' if k == 'self' else 'constructor'} "
+                            f"str(t.fmt) = {self.prev_fmt!r} rejected by the {'setter' if k == 'self' else 'constructor'} "
                             f"with {st[1]} {where}"))
             else:
-                if k == "rebuild" and not prev_fmt.split(";")[0]:
-                    pass
-                printed = stale = False
-                prev_fmt = st[1]
+                self.printed = self.stale = False
+                self.prev_fmt = st[1]
         elif k == "remove":
-            if printed and "!" in prev_fmt and st != prev_fmt:
-                stale = True
-            prev_fmt = st
+            if self.printed and "!" in self.prev_fmt and st != self.prev_fmt:
+                self.stale = True
+            self.prev_fmt = st
         elif k == "check":
             s = st["s"]
             a = st["A"]
@@ -713,15 +1012,15 @@ def oracle(case, obs):
                 if "err" in d:
                     out.append(("empty-fmt-rejected", f"t.fmt = {x!r} raised {d['err']} {where}"))
             if a["view"][0] != "ok":
-                continue       # the table cannot be rendered at all (no columns): nothing to compare
-            if stale and not CHECK_STALE_REMOVE:
-                continue
+                return         # the table cannot be rendered at all (no columns): nothing to compare
+            if self.stale and not CHECK_STALE_REMOVE:
+                return
             for nm, d in routes:
                 if "err" in d:
                     continue
-                if nm == "constructor" and neg:
+                if nm == "constructor" and self.neg:
                     continue
-                sig = "stale-width-after-remove-columns" if stale else "rendering-differs"
+                sig = "stale-width-after-remove-columns" if self.stale else "rendering-differs"
                 if d["h"] != a["h"]:
                     out.append((sig, f"rendering through the {nm} with str(t.fmt) = {s!r} differs from the table's "
                                      f"own rendering: {d['view']} vs {a['view']} {where}"))
@@ -732,14 +1031,89 @@ def oracle(case, obs):
                 if "err" in d:
                     continue
                 if d["h"] != a["h"] or d["fmt"] != a["fmt"]:
-                    sig = "stale-width-after-remove-columns" if stale else "empty-fmt-changes"
+                    sig = "stale-width-after-remove-columns" if self.stale else "empty-fmt-changes"
                     out.append((sig, f"t.fmt = {x!r} changed the table: {d['view']} {d['fmt']!r} vs "
                                      f"{a['view']} {a['fmt']!r} {where}"))
+
+
+def oracle(case, obs):
+    if "__hang__" in obs:
+        return [("hang", "the life-cycle program did not return")]
+    if case.get("flavour", "valid") == "badnames" or not all(name_in_charset(f["n"]) for f in case["fields"]):
+        return []      # names outside the stated character set: nothing is demanded
+    fields = [f["n"] for f in case["fields"]]
+    if case.get("session"):
+        return oracle_session(case, obs, fields)
+    if obs["init"][0] == "err":
+        return []
+    neg = bool(case.get("neglim")) or any(isinstance(x, int) and x < 0 for x in (case["lim"] or []))
+    j = _Judge(obs["init"][1], neg, f"on fmt={case['fmt']!r} fields={fields}")
+    for o, st in zip(case["ops"], obs["steps"]):
+        j.feed(o, st)
+    return j.out
+
+
+def _neg_lim(lim):
+    return any(isinstance(x, int) and x < 0 for x in (lim or []))
+
+
+def oracle_session(case, obs, fields):
+    """every table of the session is judged on its own operations, whatever happened to the
+    other tables and format objects in between (which is where a shared / aliased format shows)"""
+    neg = bool(case.get("neglim"))
+    judges = []
+    trail = []
+    for m, st in zip(case["ops"], obs["steps"]):
+        ob = st["ob"]
+        k = m[0]
+        if k in ("new", "newobj"):
+            idx = len(judges)
+            if k == "new":
+                how = f"tables[{idx}] = PPTable(records[{m[1]}], fmt={m[2]!r}, limits={m[3]}, skip_columns={m[4]})"
+            else:
+                srcs = f"shared[{m[2][1]}]" if m[2][0] == "shared" else f"tables[{m[2][1]}].fmt"
+                how = f"tables[{idx}] = PPTable(records[{m[1]}], fmt_obj={srcs}, limits={m[3]}, skip_columns={m[4]})"
+            trail.append(how)
+            if ob[0] == "ok":
+                judges.append(_Judge(ob[1], neg or _neg_lim(m[3]),
+                                     lambda idx=idx: f"on tables[{idx}] of the session [{'; '.join(trail)}] "
+                                                     f"shared={case['shared']!r} fields={fields}"))
+            else:
+                judges.append(None)
+        else:
+            j = judges[m[1]] if m[1] < len(judges) else None
+            o = m[2]
+            trail.append(f"tables[{m[1]}]: " + (o[0] if o[0] != "set" else f"set {o[1]!r}"))
+            if j is None or ob == ["absent"]:
+                continue
+            j.feed(o, ob)
+    out = []
+    for j in judges:
+        if j is not None:
+            out.extend(j.out)
     return out
 
 
+def _steps_of(case, obs):
+    """(table operation, its observation) pairs of a program of either shape"""
+    if case.get("session"):
+        return [(m[2], st["ob"]) for m, st in zip(case["ops"], obs["steps"])
+                if m[0] == "op" and st["ob"] != ["absent"]]
+    return list(zip(case["ops"], obs["steps"]))
+
+
 def nontrivial(case, obs):
-    if "__hang__" in obs or obs["init"][0] == "err":
+    if "__hang__" in obs:
+        return False
+    if case.get("session"):
+        made = [i for i, (m, st) in enumerate(zip(case["ops"], obs["steps"])) if m[0] == "newobj" and st["ob"][0] == "ok"]
+        if not made:
+            return False
+        for m, st in list(zip(case["ops"], obs["steps"]))[made[0]:]:
+            if m[0] == "op" and m[2][0] == "check" and st["ob"] != ["absent"] and "-" in st["ob"]["s"].split(";")[0]:
+                return True
+        return False
+    if obs["init"][0] == "err":
         return False
     seen_change = False
     for o, st in zip(case["ops"], obs["steps"]):
@@ -755,15 +1129,35 @@ def nontrivial(case, obs):
 def outcome(case, obs):
     if "__hang__" in obs:
         return "hang"
-    if obs["init"][0] == "err":
+    if not case.get("session") and obs["init"][0] == "err":
         return "ctor:" + obs["init"][1]
-    errs = sorted({st[1] for o, st in zip(case["ops"], obs["steps"])
+    errs = sorted({st[1] for o, st in _steps_of(case, obs)
                    if o[0] in ("set", "self", "rebuild") and st[0] == "err"})
+    if case.get("session"):
+        errs = sorted(set(errs) | {st["ob"][1] for m, st in zip(case["ops"], obs["steps"])
+                                   if m[0] in ("new", "newobj") and st["ob"][0] == "err"})
     return "ok" if not errs else "set:" + "+".join(errs)
 
 
 def shrink_candidates(case):
     ops = case["ops"]
+    if case.get("session"):
+        def is_check(m):
+            return m[0] == "op" and m[2][0] == "check"
+        nchk = sum(1 for m in ops if is_check(m))
+        for i in range(len(ops)):
+            if ops[i][0] != "op":
+                continue            # removing a construction would renumber the tables
+            if not is_check(ops[i]) or nchk > 1:
+                c = dict(case)
+                c["ops"] = ops[:i] + ops[i + 1:]
+                yield c
+        for k, recs in enumerate(case["recsets"]):
+            for i in range(len(recs)):
+                c = dict(case)
+                c["recsets"] = [r if kk != k else recs[:i] + recs[i + 1:] for kk, r in enumerate(case["recsets"])]
+                yield c
+        return
     for i in range(len(ops)):
         if ops[i][0] != "check" or sum(1 for o in ops if o[0] == "check") > 1:
             c = dict(case)
